@@ -147,11 +147,12 @@ func (dss *dataStoreSet) getUser(userName string) (dsu *dataStoreUser, exists bo
 
 func (dss *dataStoreSet) dbSize(index int) (size respInt, valid bool) {
 	dss.mu.Lock()
-	defer dss.mu.Unlock()
-
 	ds, exists := dss.dbs[index]
+	dss.mu.Unlock()
+
 	if exists {
-		// the key count is maintained under the database lock
+		// the key count is maintained under the database lock (taken after the table lock
+		// has been released: EXEC takes the two in the opposite order)
 		dsc := ds.newDataStoreCommand()
 		dsc.lock()
 		size = respInt(ds.data.count)
